@@ -6,7 +6,8 @@ import ast
 from .. import terms as tm
 from ..loader import AnalysisError
 from ..report import rule
-from .common import module_constant
+from .common import module_constant, unparse
+from ..resolve import Resolver
 from ..terms import App, Attr, Idx, Lst, Range, Slc, Sym, Tup
 
 STACK = "data_preparation.stack_training_data"
@@ -42,6 +43,15 @@ def stack_obligations(ctx):
         (dt is None or str(dt) in ("numpy.float64", "builtins.float"))
     ctx.check(ok, fi, "target is allocated (T - W + 1) x (N * W), float64", line=defs[0].lineno, role="alloc",
               expected=f"numpy.zeros([{rows}, {cols}])", found=str(alloc))
+    # an assertion about array *contents* can fail for valid data (np.array_equal is False wherever a NaN sits): assertions in the
+    # stacker may compare shapes and counts only
+    for n_ in Resolver.walk_own(fi.node):
+        if isinstance(n_, ast.Assert):
+            calls_ = [c_ for c_ in ast.walk(n_.test) if isinstance(c_, ast.Call)]
+            bad_ = [c_ for c_ in calls_ if not (isinstance(c_.func, ast.Name) and c_.func.id in ("len", "int", "isinstance", "range"))]
+            if bad_:
+                ctx.unrecognised(fi, f"`assert {unparse(n_.test, 60)}` evaluates a call on array contents: that it holds for every finite or non-finite "
+                                 "input is not derived here", line=n_.lineno, role="assert:contents")
     stores = [s for s in b.stores() if s.base_name == name]
     others = [m for m in b.mutated.get(name, []) if not isinstance(m, ast.Assign)]
     if not ctx.check(len(stores) == 1 and not others, fi, "the target is written by exactly one store", role="single-store",
